@@ -922,6 +922,13 @@ class Interp(object):
     def expr_Name(self, e, frame):
         return self.lookup(e.id, frame, e)
 
+    def expr_Slice(self, e, frame):
+        # only reached from `del x[a:b]` (expr_Subscript handles slices of loads itself)
+        parts = [self.eval(x, frame) if x is not None else None for x in (e.lower, e.upper, e.step)]
+        if any(is_sym(x) for x in parts):
+            raise Unsupported('symbolic slice bounds')
+        return slice(*parts)
+
     def expr_Tuple(self, e, frame):
         return tuple(self.eval(x, frame) for x in e.elts)
 
@@ -1429,7 +1436,7 @@ class Interp(object):
     def str_join(self, sep, seq, node):
         if isinstance(seq, SplitLines):
             # sep.join(text.splitlines()): an uninterpreted function of (sep, text) - equal to text only when it has no line breaks
-            f = z3.Function('str_join_splitlines', z3.StringSort(), z3.StringSort(), z3.StringSort())
+            f = z3.Function(f'str_join_{seq.how}', z3.StringSort(), z3.StringSort(), z3.StringSort())
             return SV('str', f(term(sep) if is_sym(sep) else z3.StringVal(sep), seq.t))
         if isinstance(seq, (SV, PatStr)):
             raise Unsupported('join over symbolic iterable')
@@ -1451,6 +1458,8 @@ class Interp(object):
                 return SV('str', f(obj.t))
             if attr == 'splitlines' and not args:
                 return SplitLines(obj.t)
+            if attr == 'split' and not args and not kwargs:
+                return SplitLines(obj.t, 'split')
             if attr in ('isdigit', 'isdecimal', 'isnumeric', 'isalpha', 'isalnum', 'isspace', 'isascii') and not args:
                 # Unicode character classes: uninterpreted predicates of the text (Python's isdigit is NOT "all of 0-9")
                 return SV('bool', z3.Function(f'str_{attr}', z3.StringSort(), z3.BoolSort())(obj.t))
@@ -1461,9 +1470,10 @@ class Interp(object):
 
 
 class SplitLines(object):
-    """text.splitlines() of a symbolic text; only sep.join(...) of it is modelled."""
-    def __init__(self, t):
+    """text.splitlines() / text.split() of a symbolic text; only sep.join(...) of it is modelled (an uninterpreted function)."""
+    def __init__(self, t, how='splitlines'):
         self.t = t
+        self.how = how
 
 
 class BoundSym(object):
